@@ -699,6 +699,17 @@ def compute_l2_key(
     l1_key = rk.l1_key
     l2 = rk.l2
     l2_key = rk.l2_key
+
+    # The L1 and L2 keys can only be derived downwards, anything else would
+    # never reach the requested index in the loops below.
+    for idx in [l1, l2, request_l1, request_l2]:
+        if idx < 0 or idx > 31:
+            raise ValueError(f"L1 and L2 indexes must be between 0 and 31 but got {idx}")
+    if l1 < request_l1 or (l1 == request_l1 and l2 < request_l2):
+        raise ValueError(
+            f"Seed key for L1 {l1} L2 {l2} cannot be used to derive the key for L1 {request_l1} L2 {request_l2}"
+        )
+
     reseed_l2 = l2 == 31 or rk.l1 != request_l1
 
     # MS-GKDI 2.2.4 Group key Envelope
